@@ -9,3 +9,6 @@ INVARIANT ArgsLaw
 INVARIANT TimeLaw
 INVARIANT TruncLaw
 CHECK_DEADLOCK FALSE
+INVARIANT AlgebraLaw
+INVARIANT OrderLaw
+INVARIANT BreakdownOdd
